@@ -214,10 +214,19 @@ class HRep:
         self._cache = {}
         self.wrap = repcase.get("wrap") if self.dim >= 2 else None
 
-    def library(self):
+    def library(self, letters=None):
+        """`letters`: the longest word (in generators) the law will ask about. Integer-typed
+        generators are only used while every entry of every such image fits in int64 with
+        room to spare (NumPy integer products wrap around silently: the caller's choice of
+        dtype, not the library's arithmetic, is what fails beyond that)"""
         rep = representation.Representation()
+        as_float = False
+        if self.exact and letters is not None and \
+                max(self.norm.values()) ** max(int(letters), 1) >= 2 ** 62:
+            as_float = True
+        self.int_downgraded = as_float
         for nm, M in self.lib_mats.items():
-            rep[nm] = M.copy()
+            rep[nm] = M.astype(float) if as_float else M.copy()
         return wrapped(rep, self.wrap)
 
     def image(self, tokens):
@@ -258,6 +267,13 @@ def arr(x, dtype=None):
     if hasattr(x, "matrix"):
         x = np.swapaxes(np.asarray(x.matrix), -1, -2)
     return np.asarray(x, dtype=dtype)
+
+
+def longest(model, Ls, lk, k=1):
+    """number of generators in the longest word a law can ask about: longest label times
+    the largest length bound"""
+    labs = [len(tokens_of_label(lk, lab)) for nb in model.values() for lab in nb]
+    return max(labs, default=1) * max(list(Ls) + [1]) * k
 
 
 def tokens_of_label(lk, label):
@@ -513,7 +529,7 @@ def body_accept(case, ctx):
     aut, lk = case["aut"], case["lk"]
     model, start = model_of(aut)
     H = HRep(case["rep"])
-    rep = H.library()
+    rep = H.library(longest(model, case["Ls"], lk))
     F = build_fsa(aut, model, start)
     label_automaton(ctx, model, start, case["Ls"], lk)
     ctx.label("rep=" + case["rep"]["kind"] + ("/" + case["rep"].get("dt", "")
@@ -573,7 +589,7 @@ def body_fsa_enum(case, ctx):
     aut, lk = case["aut"], case["lk"]
     model, start = model_of(aut)
     H = HRep(case["rep"])
-    rep = H.library()
+    rep = H.library(longest(model, case["Ls"], lk))
     F = build_fsa(aut, model, start)
     label_automaton(ctx, model, start, case["Ls"], lk)
     ew = edge_words_options(lk)[0]
@@ -643,7 +659,8 @@ def body_free(case, ctx):
     rep = representation.Representation()
     for i in case["order"]:
         nm = H.names[i]
-        rep[nm] = H.lib_mats[nm].copy()
+        rep[nm] = H.lib_mats[nm].copy() if not (H.exact and max(H.norm.values()) ** max(L, 1)
+                                                >= 2 ** 62) else H.lib_mats[nm].astype(float)
     rep = wrapped(rep, H.wrap)
     if case.get("spoil"):
         # the caller's own free automaton on the same generators, edited in place before
@@ -721,10 +738,10 @@ def body_memo(case, ctx):
     aut, lk = case["aut"], case["lk"]
     model, start = model_of(aut)
     H = HRep(case["rep"])
-    rep = H.library()
+    Ls = [s[0] for s in case["steps"]]
+    rep = H.library(longest(model, Ls, lk))
     F = build_fsa(aut, model, start)
     verts = list(model)
-    Ls = [s[0] for s in case["steps"]]
     label_automaton(ctx, model, start, Ls, lk)
     ctx.label("nondefault", "mode=" + case["mode"], "maxlen=%s" % case["maxlen"],
               "with_words=%s" % case["with_words"])
@@ -796,7 +813,7 @@ def body_builtin(case, ctx):
     ctx.check(name in listed, "list_builtins names the file", file=name)
     F = fsa.load_builtin(name)
     H = HRep(builtin_rep(names))
-    rep = H.library()
+    rep = H.library(case["L"])
     verts = list(model)
     L = case["L"]
     label_automaton(ctx, model, start, [L], "single")
@@ -885,7 +902,7 @@ def free_model(rank):
 def body_multiple(case, ctx):
     aut, k, L = case["aut"], case["k"], case["L"]
     H = HRep(case["rep"])
-    rep = H.library()
+    rep = H.library(L * k * 3)
     if "free" in aut:
         model, start = free_model(aut["free"])
         base = fsa.free_automaton(list(LETTERS[:aut["free"]]))
